@@ -32,25 +32,22 @@ def words_of(G, path, name):
         _unl(f"buidl/{fn}: {e}")
 
 
-def text_of(G, path, name):
-    """code points of the word-list file exactly as `f.read()` returns them"""
-    fn, _, loc = wordlist_call(G, path, name)
-    try:
-        with open(f"{G.repo}/buidl/{fn}", "r") as f:
-            return [ord(c) for c in f.read()], f"buidl/{fn} ({loc})"
-    except Exception as e:
-        _unl(f"buidl/{fn}: {e}")
+CP_BASE = 1 << 21      # one digit per code point, most significant first
+MAX_WORD = 32
 
 
-CHUNK = 2800
-
-
-def text_chunks(G, file, name, path, wl, count):
-    for k in range(count):
-        def f(k=k):
-            cps, loc = text_of(G, path, wl)
-            return (cps[k * CHUNK:(k + 1) * CHUNK] if k < count - 1 else cps[k * CHUNK:]), loc
-        yield G.nats(file, f"{name}{k}", f)
+def word_nats(G, path, name):
+    """every word of `f.read().split()` as one number: its code points as base-2^21 digits"""
+    ws, loc = words_of(G, path, name)
+    out = []
+    for w in ws:
+        if not (0 < len(w) <= MAX_WORD) or ord(w[0]) == 0:
+            _unl(f"word {w!r} cannot be encoded")
+        n = 0
+        for c in w:
+            n = n * CP_BASE + ord(c)
+        out.append(n)
+    return out, loc
 
 
 def ints(G, path, qual):
@@ -64,10 +61,9 @@ def nth_int(G, path, qual, k, expect=None):
 
 def items(G):
     yield G.strs("Bip39Words", "bip39Words", lambda: words_of(G, M, "BIP39"))
-    # the file text as code points, in chunks (each chunk stays well below gen_lean's long-text threshold);
-    # the last chunk takes whatever remains
-    for it in text_chunks(G, "Bip39Text", "bip39Text", M, "BIP39", 6):
-        yield it
+    yield G.nats("Bip39Words", "bip39WordNats", lambda: word_nats(G, M, "BIP39"))
+    yield G.nat("Mnemonic", "cpBase", lambda: (CP_BASE, "harness/gen_parts/mnemonic.py (encoding of the word tables)"))
+    yield G.nat("Mnemonic", "cpMaxWord", lambda: (MAX_WORD, "harness/gen_parts/mnemonic.py (encoding of the word tables)"))
     yield G.nat("Mnemonic", "bip39Count", lambda: (lambda t: (t[1], t[2]))(wordlist_call(G, M, "BIP39")))
 
     # WordList.__init__: `if len(word) > 4: lookup[word[:4]] = i`
